@@ -2,6 +2,7 @@ package refeval
 
 import (
 	"context"
+	"flag"
 	"fmt"
 	"io"
 	"io/ioutil"
@@ -13,6 +14,7 @@ import (
 	"github.com/grailbio/bigslice"
 	"github.com/grailbio/bigslice/exec"
 	"github.com/grailbio/bigslice/sliceio"
+	"github.com/grailbio/bigslice/sortio"
 )
 
 // Func is the one registered bigslice.Func; it builds the program it is given.
@@ -449,4 +451,25 @@ func RunAndScan(ctx context.Context, sess *exec.Session, p Program) (Outcome, er
 		return out, fmt.Errorf("scan: %v", err)
 	}
 	return out, nil
+}
+
+// SetChunk sets bigslice's internal vector size everywhere it is kept: the
+// flag-backed internal/defaultsize.Chunk (exec reads it through a pointer) and
+// the copies that the root package, sliceio and sortio took at init (through
+// the injected /verif/inject/*/common_chunk.go setters), plus the exported
+// sliceio.SpillBatchSize. n must be a power of two: exec's combining hash
+// table is created with n slots and panics otherwise. Call it before any
+// session runs and not concurrently with runs.
+func SetChunk(n int) error {
+	if n < 1 || n&(n-1) != 0 {
+		return fmt.Errorf("refeval.SetChunk: %d is not a power of two", n)
+	}
+	if err := flag.Set("bigslice-internal-default-chunk-rows", fmt.Sprint(n)); err != nil {
+		return err
+	}
+	bigslice.VerifCommonSetChunk(n)
+	sliceio.VerifCommonSetChunk(n)
+	sortio.VerifCommonSetChunk(n)
+	sliceio.SpillBatchSize = n
+	return nil
 }
